@@ -316,6 +316,16 @@ def gen_history(seed, index):
             q[j] = rng.choice(alt)
         return q
 
+    def near(p):
+        # a distinct point a hair away from a logged one in every (or some) coordinate: must get a record of its own
+        q = list(p)
+        for j in range(D):
+            if rng.random() < 0.8:
+                q[j] = q[j] + rng.choice([1e-7, -1e-7, 1e-9, -1e-9, 3e-12]) * max(1.0, abs(q[j]))
+        if q == list(p):
+            q[0] = q[0] + 1e-9
+        return q
+
     for _ in range(n_ops):
         t = rng.random()
         sd = None
@@ -361,6 +371,8 @@ def gen_history(seed, index):
             x = list(rng.choice(pts))
         elif pts and c < 0.6:
             x = partial(rng.choice(pts))
+        elif pts and c < 0.68:
+            x = near(rng.choice(pts))
         else:
             x = newpoint()
         if want_adds and rng.random() < 0.25:
